@@ -1,7 +1,7 @@
 #!/bin/sh
 # tools/mutant.sh <patch.diff> <property id>...   - self-test: run checks against a mutated copy of /repo/src
 # The copy lives under /tmp and is removed afterwards; /repo is never touched; evidence is not overwritten.
-patch="$1"; shift
+patch="$(readlink -f "$1")"; shift
 d=$(mktemp -d /tmp/mut.XXXXXX)
 cp -r /repo/src "$d/src"
 find "$d" -name __pycache__ -prune -exec rm -rf {} +
